@@ -22,7 +22,6 @@ pub open spec fn val_of_header(h: Header) -> Value {
     vvec(seq![vint((h.network as u64) as nat), vbytes(h.previous.0@), vint(h.height.0 as nat), vbytes(h.history_hash.0@), vbytes(h.coins_hash.0@), vbytes(h.transactions_hash.0@),
               vint(h.fee_pool.0 as nat), vint(h.fee_multiplier as nat), vint(h.dosc_speed as nat), vbytes(h.pools_hash.0@), vbytes(h.stakes_hash.0@)])
 }
-pub uninterp spec fn val_of_denom(d: Denom) -> Value;
 impl FromSpecImpl<u128> for Value { open spec fn obeys_from_spec() -> bool { true } open spec fn from_spec(n: u128) -> Value { vint(n as nat) } }
 impl FromSpecImpl<u64> for Value { open spec fn obeys_from_spec() -> bool { true } open spec fn from_spec(n: u64) -> Value { vint(n as nat) } }
 impl FromSpecImpl<HashVal> for Value { open spec fn obeys_from_spec() -> bool { true } open spec fn from_spec(h: HashVal) -> Value { vbytes(h.0@) } }
